@@ -9,7 +9,7 @@ use super::{generic_gen_run, generic_replay, World, WorldDef};
 use crate::core::*;
 use crate::flavour::{NoopLock, PlLock};
 use crate::rng::Rng;
-use crate::val::{self, Val};
+use crate::val::{self, Payload, Val, Zst};
 use futures_core::future::FusedFuture;
 use futures_core::stream::{FusedStream, Stream};
 use futures_intrusive::buffer::{ArrayBuf, FixedHeapBuf, GrowingHeapBuf, RingBuf};
@@ -52,46 +52,51 @@ const K_RECV: u8 = 1;
 const K_STREAM: u8 = 2;
 
 pub trait MpmcApi: 'static {
+    type P: Payload;
     type Root;
     type Tx;
     type Rx;
     type Obs;
-    type SendFut: Future<Output = Result<(), ChannelSendError<Val>>> + FusedFuture;
-    type RecvFut: Future<Output = Option<Val>> + FusedFuture;
-    type Strm: Stream<Item = Val> + FusedStream;
+    type SendFut: Future<Output = Result<(), ChannelSendError<Self::P>>> + FusedFuture;
+    type RecvFut: Future<Output = Option<Self::P>> + FusedFuture;
+    type Strm: Stream<Item = Self::P> + FusedStream;
     const SHARED: bool;
     const GROWING: bool;
     /// None: this buffer type cannot provide the requested capacity
     fn create(cap: usize) -> (Self::Root, Self::Tx, Self::Rx, Self::Obs);
     fn clone_tx(t: &Self::Tx) -> Self::Tx;
     fn clone_rx(r: &Self::Rx) -> Self::Rx;
-    fn send(t: &Self::Tx, v: Val) -> Self::SendFut;
-    fn try_send(t: &Self::Tx, v: Val) -> Result<(), TrySendError<Val>>;
+    fn send(t: &Self::Tx, v: Self::P) -> Self::SendFut;
+    fn try_send(t: &Self::Tx, v: Self::P) -> Result<(), TrySendError<Self::P>>;
     fn close_tx(t: &Self::Tx) -> CloseStatus;
     fn receive(r: &Self::Rx) -> Self::RecvFut;
-    fn try_receive(r: &Self::Rx) -> Result<Val, TryReceiveError>;
+    fn try_receive(r: &Self::Rx) -> Result<Self::P, TryReceiveError>;
     fn close_rx(r: &Self::Rx) -> CloseStatus;
     fn stream(r: Self::Rx) -> Self::Strm;
     /// `SharedStream::close()` (shared flavour only)
     fn close_stream(s: &Self::Strm) -> Option<CloseStatus>;
-    fn cancel(f: Pin<&mut Self::SendFut>) -> Option<Val>;
+    fn cancel(f: Pin<&mut Self::SendFut>) -> Option<Self::P>;
     fn snapshot(o: &Self::Obs, is_live: IsLive<'_>) -> Snapshot;
 }
 
 pub struct Borrowed<M, A>(std::marker::PhantomData<(M, A)>);
-impl<M: RawMutex + 'static, A: RingBuf<Item = Val> + 'static> MpmcApi for Borrowed<M, A> {
-    type Root = Owned<GenericChannel<M, Val, A>>;
-    type Tx = &'static GenericChannel<M, Val, A>;
-    type Rx = &'static GenericChannel<M, Val, A>;
-    type Obs = &'static GenericChannel<M, Val, A>;
-    type SendFut = ChannelSendFuture<'static, M, Val>;
-    type RecvFut = ChannelReceiveFuture<'static, M, Val>;
-    type Strm = ChannelStream<'static, M, Val, A>;
+impl<M: RawMutex + 'static, A: RingBuf + 'static> MpmcApi for Borrowed<M, A>
+where
+    A::Item: Payload,
+{
+    type P = A::Item;
+    type Root = Owned<GenericChannel<M, A::Item, A>>;
+    type Tx = &'static GenericChannel<M, A::Item, A>;
+    type Rx = &'static GenericChannel<M, A::Item, A>;
+    type Obs = &'static GenericChannel<M, A::Item, A>;
+    type SendFut = ChannelSendFuture<'static, M, A::Item>;
+    type RecvFut = ChannelReceiveFuture<'static, M, A::Item>;
+    type Strm = ChannelStream<'static, M, A::Item, A>;
     const SHARED: bool = false;
     const GROWING: bool = false;
     fn create(cap: usize) -> (Self::Root, Self::Tx, Self::Rx, Self::Obs) {
         // the world drops every future before the root
-        let (b, r) = Owned::new(GenericChannel::<M, Val, A>::with_capacity(cap));
+        let (b, r) = Owned::new(GenericChannel::<M, A::Item, A>::with_capacity(cap));
         (b, r, r, r)
     }
     fn clone_tx(t: &Self::Tx) -> Self::Tx {
@@ -100,10 +105,10 @@ impl<M: RawMutex + 'static, A: RingBuf<Item = Val> + 'static> MpmcApi for Borrow
     fn clone_rx(r: &Self::Rx) -> Self::Rx {
         *r
     }
-    fn send(t: &Self::Tx, v: Val) -> Self::SendFut {
+    fn send(t: &Self::Tx, v: A::Item) -> Self::SendFut {
         t.send(v)
     }
-    fn try_send(t: &Self::Tx, v: Val) -> Result<(), TrySendError<Val>> {
+    fn try_send(t: &Self::Tx, v: A::Item) -> Result<(), TrySendError<A::Item>> {
         t.try_send(v)
     }
     fn close_tx(t: &Self::Tx) -> CloseStatus {
@@ -112,7 +117,7 @@ impl<M: RawMutex + 'static, A: RingBuf<Item = Val> + 'static> MpmcApi for Borrow
     fn receive(r: &Self::Rx) -> Self::RecvFut {
         r.receive()
     }
-    fn try_receive(r: &Self::Rx) -> Result<Val, TryReceiveError> {
+    fn try_receive(r: &Self::Rx) -> Result<A::Item, TryReceiveError> {
         r.try_receive()
     }
     fn close_rx(r: &Self::Rx) -> CloseStatus {
@@ -124,7 +129,7 @@ impl<M: RawMutex + 'static, A: RingBuf<Item = Val> + 'static> MpmcApi for Borrow
     fn close_stream(_s: &Self::Strm) -> Option<CloseStatus> {
         None
     }
-    fn cancel(f: Pin<&mut Self::SendFut>) -> Option<Val> {
+    fn cancel(f: Pin<&mut Self::SendFut>) -> Option<A::Item> {
         // Safety: cancel() does not move the future
         unsafe { f.get_unchecked_mut() }.cancel()
     }
@@ -134,18 +139,22 @@ impl<M: RawMutex + 'static, A: RingBuf<Item = Val> + 'static> MpmcApi for Borrow
 }
 
 pub struct Shared<M, A, const GROW: bool>(std::marker::PhantomData<(M, A)>);
-impl<M: RawMutex + 'static, A: RingBuf<Item = Val> + 'static, const GROW: bool> MpmcApi for Shared<M, A, GROW> {
+impl<M: RawMutex + 'static, A: RingBuf + 'static, const GROW: bool> MpmcApi for Shared<M, A, GROW>
+where
+    A::Item: Payload + Send,
+{
+    type P = A::Item;
     type Root = ();
-    type Tx = GenericSender<M, Val, A>;
-    type Rx = GenericReceiver<M, Val, A>;
-    type Obs = VerifChannelObserver<M, Val, A>;
-    type SendFut = shared::ChannelSendFuture<M, Val>;
-    type RecvFut = shared::ChannelReceiveFuture<M, Val>;
-    type Strm = SharedStream<M, Val, A>;
+    type Tx = GenericSender<M, A::Item, A>;
+    type Rx = GenericReceiver<M, A::Item, A>;
+    type Obs = VerifChannelObserver<M, A::Item, A>;
+    type SendFut = shared::ChannelSendFuture<M, A::Item>;
+    type RecvFut = shared::ChannelReceiveFuture<M, A::Item>;
+    type Strm = SharedStream<M, A::Item, A>;
     const SHARED: bool = true;
     const GROWING: bool = GROW;
     fn create(cap: usize) -> (Self::Root, Self::Tx, Self::Rx, Self::Obs) {
-        let (tx, rx) = shared::generic_channel::<M, Val, A>(cap);
+        let (tx, rx) = shared::generic_channel::<M, A::Item, A>(cap);
         let obs = tx.verif_observer();
         ((), tx, rx, obs)
     }
@@ -155,10 +164,10 @@ impl<M: RawMutex + 'static, A: RingBuf<Item = Val> + 'static, const GROW: bool> 
     fn clone_rx(r: &Self::Rx) -> Self::Rx {
         r.clone()
     }
-    fn send(t: &Self::Tx, v: Val) -> Self::SendFut {
+    fn send(t: &Self::Tx, v: A::Item) -> Self::SendFut {
         t.send(v)
     }
-    fn try_send(t: &Self::Tx, v: Val) -> Result<(), TrySendError<Val>> {
+    fn try_send(t: &Self::Tx, v: A::Item) -> Result<(), TrySendError<A::Item>> {
         t.try_send(v)
     }
     fn close_tx(t: &Self::Tx) -> CloseStatus {
@@ -167,7 +176,7 @@ impl<M: RawMutex + 'static, A: RingBuf<Item = Val> + 'static, const GROW: bool> 
     fn receive(r: &Self::Rx) -> Self::RecvFut {
         r.receive()
     }
-    fn try_receive(r: &Self::Rx) -> Result<Val, TryReceiveError> {
+    fn try_receive(r: &Self::Rx) -> Result<A::Item, TryReceiveError> {
         r.try_receive()
     }
     fn close_rx(r: &Self::Rx) -> CloseStatus {
@@ -179,7 +188,7 @@ impl<M: RawMutex + 'static, A: RingBuf<Item = Val> + 'static, const GROW: bool> 
     fn close_stream(s: &Self::Strm) -> Option<CloseStatus> {
         Some(s.close())
     }
-    fn cancel(f: Pin<&mut Self::SendFut>) -> Option<Val> {
+    fn cancel(f: Pin<&mut Self::SendFut>) -> Option<A::Item> {
         // Safety: cancel() does not move the future
         unsafe { f.get_unchecked_mut() }.cancel()
     }
@@ -243,6 +252,7 @@ pub struct MpmcWorld<A: MpmcApi> {
     weights: [u32; NW],
     next_id: usize,
     next_tag: u32,
+    prefill_left: u64,
     observer_on: bool,
 }
 
@@ -365,9 +375,13 @@ impl<A: MpmcApi> MpmcWorld<A> {
         }
         let opname = OP_NAMES[op.k as usize];
         // C08: values dropped inside the library calls of this operation
-        let dropped = val::drain_recent();
+        let mut dropped = val::drain_recent();
         let mut want = std::mem::take(&mut self.expected_lib_drops);
         want.sort_unstable();
+        if A::P::ZST && dropped.len() == want.len() {
+            // values without identity: the number of drops is what can be compared
+            dropped = want.clone();
+        }
         if dropped != want {
             if self.last_receiver_gone_in_this_op {
                 env.fail("C11", "buffer-not-discarded", format!("{}: the last receiver is gone, buffered values {:?} must be discarded immediately, but the library dropped {:?}", opname, want, dropped), true);
@@ -488,10 +502,19 @@ impl<A: MpmcApi> MpmcWorld<A> {
         env.push_state(sh, op.k);
     }
 
-    fn consume(v: Val) -> u32 {
-        let t = v.tag;
+    /// `exp`: the tag a value without identity (zero-sized payload) is taken to be
+    fn consume(v: A::P, exp: u32) -> u32 {
+        let t = v.tag().unwrap_or(exp);
         drop(v); // harness-side drop (outside any library call)
         t
+    }
+
+    /// the value the reference model would deliver next (zero-sized payloads only)
+    fn exp_recv(&self) -> u32 {
+        match self.peek_recv() {
+            RecvOutcome::Value(t) => t,
+            _ => (val::MAX_TAGS - 1) as u32,
+        }
     }
 
     fn drop_any(&mut self, env: &mut Env, id: usize) -> bool {
@@ -561,12 +584,19 @@ impl<A: MpmcApi> MpmcWorld<A> {
 }
 
 impl<A: MpmcApi> World for MpmcWorld<A> {
-    fn new(cfg: &Cfg, _env: &mut Env) -> Self {
+    fn new(cfg: &Cfg, env: &mut Env) -> Self {
         val::reset();
         let cap = cfg_get(cfg, "cap", 1) as usize;
         let (root, tx, rx, obs) = A::create(cap);
-        // array-backed buffers ignore the requested capacity: ask the channel
-        let cap = A::snapshot(&obs, &mut |_| false).scalar("buffer_capacity").unwrap_or(cap as u64) as usize;
+        // array-backed buffers ignore the requested capacity: their length is the capacity.
+        // The model's capacity is what was asked for, never what the buffer reports.
+        let flavour = (cfg_get(cfg, "flavour", 0).max(0) as usize).min(NFLAV - 1);
+        let cap = FLAVOURS[flavour].1.unwrap_or(cap);
+        if let Some(reported) = A::snapshot(&obs, &mut |_| false).scalar("buffer_capacity") {
+            if reported != cap as u64 {
+                env.fail("C09", "capacity-mismatch", format!("a channel created with capacity {} reports a buffer capacity of {}", cap, reported), true);
+            }
+        }
         let observer_on = !A::SHARED || cfg_get(cfg, "observer", 1) != 0;
         let mut txs: Vec<Option<A::Tx>> = (0..MAX_HANDLES).map(|_| None).collect();
         let mut rxs: Vec<Option<A::Rx>> = (0..MAX_HANDLES).map(|_| None).collect();
@@ -603,6 +633,7 @@ impl<A: MpmcApi> World for MpmcWorld<A> {
             weights,
             next_id: 0,
             next_tag: 1,
+            prefill_left: cfg_get(cfg, "prefill", 0).max(0) as u64,
             observer_on,
         }
     }
@@ -625,6 +656,11 @@ impl<A: MpmcApi> World for MpmcWorld<A> {
                 return if self.prim_alive { Some(Op::new(OP_DROP_PRIM, 0, 0, 0)) } else { None };
             }
             return Some(*rng.pick(&cands));
+        }
+        if self.prefill_left > 0 && !txs.is_empty() && (self.next_tag as usize) < val::MAX_TAGS - 1 {
+            self.prefill_left -= 1;
+            self.next_tag += 1;
+            return Some(Op::new(OP_TRY_SEND, 0, *rng.pick(&txs) as u32, (self.next_tag - 1) as u64));
         }
         let pollable: Vec<usize> = live.iter().copied().filter(|id| matches!(env.slots[*id].st, St::Fresh | St::Pending)).collect();
         let done: Vec<usize> = live.iter().copied().filter(|id| env.slots[*id].st == St::Done).collect();
@@ -741,7 +777,7 @@ impl<A: MpmcApi> World for MpmcWorld<A> {
                 let tag = (op.c as usize % val::MAX_TAGS) as u32;
                 if self.prim_alive && !self.used[id] && self.loc[tag as usize] == Loc::Unused {
                     if let Some(tx) = self.txs[hidx].as_ref() {
-                        if let Some(f) = env.call("send", || A::send(tx, Val::new(tag))) {
+                        if let Some(f) = env.call("send", || A::send(tx, A::P::make(tag))) {
                             self.used[id] = true;
                             self.sends.put(id, f);
                             self.sstate[id] = SState::Fresh;
@@ -818,7 +854,7 @@ impl<A: MpmcApi> World for MpmcWorld<A> {
                                     }
                                     Some(Poll::Ready(Err(ChannelSendError(v)))) => {
                                         env.end_poll(id, true);
-                                        let got = Self::consume(v);
+                                        let got = Self::consume(v, tag);
                                         if exp != Exp::Err {
                                             env.fail("C11", "send-failed-while-open", format!("send future #{} failed although the channel is open (model expects {:?})", id, exp), true);
                                         } else if got != tag {
@@ -848,7 +884,8 @@ impl<A: MpmcApi> World for MpmcWorld<A> {
                                     None => {}
                                     Some(Poll::Ready(r)) => {
                                         env.end_poll(id, true);
-                                        let got = r.map(Self::consume);
+                                        let er = self.exp_recv();
+                                        let got = r.map(|v| Self::consume(v, er));
                                         self.judge_recv(env, &format!("receive future #{}", id), Some(got), may_stay);
                                         if may_stay {
                                             env.probe("unwoken_receiver_completed");
@@ -882,7 +919,8 @@ impl<A: MpmcApi> World for MpmcWorld<A> {
                                     None => {}
                                     Some(Poll::Ready(r)) => {
                                         env.end_poll(id, true);
-                                        let got = r.map(Self::consume);
+                                        let er = self.exp_recv();
+                                        let got = r.map(|v| Self::consume(v, er));
                                         let ok = self.judge_recv(env, &format!("stream #{}", id), Some(got), may_stay);
                                         if ok && got.is_some() {
                                             // the stream lives on and has no receive in flight
@@ -917,7 +955,7 @@ impl<A: MpmcApi> World for MpmcWorld<A> {
                     }
                     let f = self.sends.pin(id);
                     if let Some(r) = env.call("cancel", || A::cancel(f)) {
-                        let got = r.map(Self::consume);
+                        let got = r.map(|v| Self::consume(v, tag));
                         env.log.add(got.map(|t| t as u64 + 1).unwrap_or(0));
                         match (got, exp_some) {
                             (Some(t), true) if t == tag => {
@@ -947,7 +985,7 @@ impl<A: MpmcApi> World for MpmcWorld<A> {
                         if env.any_pending(K_SEND, usize::MAX) {
                             env.fault("barge");
                         }
-                        if let Some(r) = env.call("try_send", || A::try_send(tx, Val::new(tag))) {
+                        if let Some(r) = env.call("try_send", || A::try_send(tx, A::P::make(tag))) {
                             match r {
                                 Ok(()) => {
                                     env.log.add(1);
@@ -962,7 +1000,7 @@ impl<A: MpmcApi> World for MpmcWorld<A> {
                                 }
                                 Err(e) => {
                                     let was_closed = e.is_closed();
-                                    let got = Self::consume(e.into_inner());
+                                    let got = Self::consume(e.into_inner(), tag);
                                     env.log.add(2 + was_closed as u64);
                                     if got != tag {
                                         env.fail("C11", "wrong-value-handed-back", format!("try_send({}) handed back value {}", tag, got), true);
@@ -988,7 +1026,7 @@ impl<A: MpmcApi> World for MpmcWorld<A> {
                         if let Some(r) = env.call("try_receive", || A::try_receive(rx)) {
                             match r {
                                 Ok(v) => {
-                                    let t = Self::consume(v);
+                                    let t = Self::consume(v, self.exp_recv());
                                     env.log.add(t as u64 + 10);
                                     self.judge_recv(env, "try_receive", Some(Some(t)), false);
                                 }
@@ -1129,7 +1167,7 @@ impl<A: MpmcApi> World for MpmcWorld<A> {
                                     match r {
                                         Poll::Ready(None) => env.probe("terminated_stream_polled_again"),
                                         Poll::Ready(Some(v)) => {
-                                            let t = Self::consume(v);
+                                            let t = Self::consume(v, 0);
                                             env.fail("C17", "stream-after-end", format!("terminated stream #{} yielded value {}", id, t), true);
                                         }
                                         Poll::Pending => env.fail("C17", "stream-after-end", format!("terminated stream #{} returned Pending", id), true),
@@ -1193,6 +1231,20 @@ impl<A: MpmcApi> World for MpmcWorld<A> {
         if env.has_fatal() {
             return;
         }
+        if A::P::ZST {
+            // values without identity: as many drops as values were created
+            let made = (1..self.next_tag.max(1)).filter(|t| self.loc[*t as usize] != Loc::Unused).count() as u32;
+            let (lib, own, _) = val::counts(0);
+            if (lib + own) as u32 != made {
+                env.fail("C08", "drop-count", format!("{} values were created but {} were dropped ({} inside the library, {} by the harness)", made, lib + own, lib, own), false);
+            }
+            for tag in 1..self.next_tag.max(1) {
+                if matches!(self.loc[tag as usize], Loc::InSender | Loc::Buffered) {
+                    env.fail("C08", "value-lost", format!("value {} is still {:?} after everything was dropped", tag, self.loc[tag as usize]), false);
+                }
+            }
+            return;
+        }
         // C08: at the end of every history each value was dropped exactly once
         for tag in 1..self.next_tag.max(1) {
             let l = self.loc[tag as usize];
@@ -1216,11 +1268,25 @@ fn draw_cfg(rng: &mut Rng) -> Cfg {
     c.insert("flavour".into(), flavour);
     let cap = match FLAVOURS[flavour as usize].1 {
         Some(n) => n as i64,
-        None => rng.range(0, 4),
+        // mostly tiny (every slot matters), sometimes beyond a run's usual fill level and
+        // around powers of two (VecDeque growth, index wrap)
+        None => {
+            if rng.pct(75) {
+                rng.range(0, 4)
+            } else {
+                *rng.pick(&[5, 6, 7, 8, 9, 15, 16, 17])
+            }
+        }
     };
     c.insert("cap".into(), cap);
-    c.insert("k".into(), rng.range(1, 4));
-    c.insert("len".into(), rng.range(8, 96));
+    // large buffers: a run of ordinary length never fills them, so some runs start with a burst
+    // of try_send operations (part of the recorded history; `len` grows accordingly)
+    let prefill = if cap >= 5 && rng.pct(60) { rng.range(cap / 3, cap + 1) } else { 0 };
+    c.insert("prefill".into(), prefill);
+    // live futures: mostly few (small joint states recur), sometimes many (batch loops, deep heaps / queues)
+    let k = if rng.pct(88) { rng.range(1, 4) } else { *rng.pick(&[6i64, 9]) };
+    c.insert("k".into(), k);
+    c.insert("len".into(), rng.range(8, 96) + prefill);
     c.insert("realism".into(), *rng.pick(&[10, 50, 90]));
     c.insert("observer".into(), rng.pct(80) as i64);
     let base = [150u32, 320, 90, 40, 90, 150, 70, 25, 30, 40, 30, 40, 25, 2];
@@ -1236,8 +1302,25 @@ fn draw_cfg(rng: &mut Rng) -> Cfg {
 
 type Arr<const N: usize> = ArrayBuf<Val, [Val; N]>;
 
+/// A user-side `RealArray` (the documented way to get array buffers of other sizes): 96 slots,
+/// above 64 and not a power of two. `ArrayBuf` keeps it in a `MaybeUninit`, it is never built.
+pub struct UserArr96([Val; 96]);
+unsafe impl futures_intrusive::buffer::RealArray<Val> for UserArr96 {
+    const LEN: usize = 96;
+}
+impl AsMut<[Val]> for UserArr96 {
+    fn as_mut(&mut self) -> &mut [Val] {
+        &mut self.0
+    }
+}
+impl AsRef<[Val]> for UserArr96 {
+    fn as_ref(&self) -> &[Val] {
+        &self.0
+    }
+}
+
 /// (name, fixed capacity of the buffer type or None if the capacity is a run-time argument)
-const FLAVOURS: [(&str, Option<usize>); 14] = [
+const FLAVOURS: [(&str, Option<usize>); 22] = [
     ("local/array0", Some(0)),
     ("local/array1", Some(1)),
     ("local/array2", Some(2)),
@@ -1252,6 +1335,14 @@ const FLAVOURS: [(&str, Option<usize>); 14] = [
     ("shared/parking_lot/array0", Some(0)),
     ("shared/parking_lot/array2", Some(2)),
     ("shared/local/growingheap", None),
+    ("local/array5", Some(5)),
+    ("local/array8", Some(8)),
+    ("shared/local/fixedheap", None),
+    ("local/fixedheap/zst", None),
+    ("local/array2/zst", Some(2)),
+    ("shared/parking_lot/fixedheap/zst", None),
+    ("local/array0/zst", Some(0)),
+    ("local/userarray96", Some(96)),
 ];
 const NFLAV: usize = FLAVOURS.len();
 
@@ -1271,7 +1362,15 @@ macro_rules! dispatch {
             10 => $f::<MpmcWorld<Shared<PlLock, FixedHeapBuf<Val>, false>>>($cfg, $($arg),*),
             11 => $f::<MpmcWorld<Shared<PlLock, Arr<0>, false>>>($cfg, $($arg),*),
             12 => $f::<MpmcWorld<Shared<PlLock, Arr<2>, false>>>($cfg, $($arg),*),
-            _ => $f::<MpmcWorld<Shared<NoopLock, GrowingHeapBuf<Val>, true>>>($cfg, $($arg),*),
+            13 => $f::<MpmcWorld<Shared<NoopLock, GrowingHeapBuf<Val>, true>>>($cfg, $($arg),*),
+            14 => $f::<MpmcWorld<Borrowed<NoopLock, Arr<5>>>>($cfg, $($arg),*),
+            15 => $f::<MpmcWorld<Borrowed<NoopLock, Arr<8>>>>($cfg, $($arg),*),
+            16 => $f::<MpmcWorld<Shared<NoopLock, FixedHeapBuf<Val>, false>>>($cfg, $($arg),*),
+            17 => $f::<MpmcWorld<Borrowed<NoopLock, FixedHeapBuf<Zst>>>>($cfg, $($arg),*),
+            18 => $f::<MpmcWorld<Borrowed<NoopLock, ArrayBuf<Zst, [Zst; 2]>>>>($cfg, $($arg),*),
+            19 => $f::<MpmcWorld<Shared<PlLock, FixedHeapBuf<Zst>, false>>>($cfg, $($arg),*),
+            20 => $f::<MpmcWorld<Borrowed<NoopLock, ArrayBuf<Zst, [Zst; 0]>>>>($cfg, $($arg),*),
+            _ => $f::<MpmcWorld<Borrowed<NoopLock, ArrayBuf<Val, UserArr96>>>>($cfg, $($arg),*),
         }
     };
 }
@@ -1279,6 +1378,7 @@ macro_rules! dispatch {
 /// borrowed channel on a growing heap buffer (allocation on push is the documented exception)
 pub struct BorrowedGrowing<M>(std::marker::PhantomData<M>);
 impl<M: RawMutex + 'static> MpmcApi for BorrowedGrowing<M> {
+    type P = Val;
     type Root = <Borrowed<M, GrowingHeapBuf<Val>> as MpmcApi>::Root;
     type Tx = <Borrowed<M, GrowingHeapBuf<Val>> as MpmcApi>::Tx;
     type Rx = <Borrowed<M, GrowingHeapBuf<Val>> as MpmcApi>::Rx;
